@@ -21,12 +21,19 @@ def plan(tier, seed):
     arrs = catalog.array_leaves()
     all_leaves = list(L.values())
     sc = catalog.scalars()
+    # combinators applied to operands that are already structured objects with their own parameters (block diagonals
+    # with multiplicities, Kronecker products, sums): the flattening rules must keep those parameters
+    structured = dict(seeds=[L[n] for n in ["D22", "D23", "Dg2c", "I2", "Sc2", "P3", "D13"]],
+                      operands=[L[n] for n in ["D22c", "D23", "Dg2", "I3"]], small=[L["D22c"], L["Dg2"]],
+                      acts={"BlockDiag", "BlockDiag3", "Kronecker", "Sum", "Product", "op_block_diag", "op_kron",
+                            "op_add", "op_matmul", "op_kronsum"}, lvl=2, dim=12, scalars=sc[:2])
     if tier == "quick":
         ops = [L[n] for n in ["D22", "D23", "D32c", "Dg2c", "I2", "Sc2", "Dg2"]] + [arrs["A22"], arrs["A23"]]
         seeds2 = [L[n] for n in ["D22c", "D23", "Dg2", "I2", "Sc2", "P3", "R0",
                                  "Sc3", "TL22"]]
         small = [L["D22c"], L["Dg2"], arrs["A22"]]
         return [
+            structured,
             dict(seeds=all_leaves, operands=all_leaves + list(arrs.values()), small=small, acts=API, lvl=1, dim=16,
                  scalars=sc),
             dict(seeds=seeds2[:7], operands=ops[:5] + [arrs["A22"]], small=small, acts=API, lvl=2, dim=6, scalars=sc[:5],
@@ -37,6 +44,7 @@ def plan(tier, seed):
         + list(arrs.values())
     small = [L["D22c"], L["Dg2"], arrs["A22"], L["I2"]]
     return [
+        structured,
         dict(seeds=all_leaves, operands=all_leaves + list(arrs.values()), small=small, acts=API, lvl=1, dim=36,
              scalars=sc),
         dict(seeds=all_leaves, operands=ops, small=small[:3], acts=API, lvl=2, dim=8, scalars=sc),
